@@ -17,5 +17,6 @@ Definition c16_sinks (x : sx) : sx :=
   let cs := map dec_scall (sx_list (sx_nth x 1)) in
   match sx_z (sx_nth x 0) with
   | 0%Z => L (map enc_sev (immediate cs))
-  | _ => L (map enc_sev (tee cs))
+  | 1%Z => L (map enc_sev (tee cs))
+  | _ => L (map enc_sev (background cs))    (* 2, 3: a background queue with room for everything; `next` calls only *)
   end.
